@@ -96,6 +96,20 @@ func C09_Vote() {
 			prepared1 = pok && pv == 1
 		}
 	}
+	if k := env.ParamOr("flood", 0); k > 0 {
+		// one (Byzantine) member sends validly signed PREPAREs for k pairwise different later views it does not lead
+		fl := []int{1, 2, 3}[env.Choice("flooder", 3)]
+		if fl != me {
+			sent := 0
+			for v := 2; sent < k; v++ {
+				if v%4 == fl {
+					continue
+				}
+				n.deliver(net.pm(fl, 1, primitives.View(v), hash).ToConsensusRawMessage())
+				sent++
+			}
+		}
+	}
 	from := len(n.comm.Out)
 	nreg := len(n.el.Regs)
 	n.timeout()
